@@ -136,7 +136,7 @@ PROPS["C14"] = {
 }
 
 PROPS["C16"] = {
-    "modules": ["SamlVerif.Props.C16", "SamlVerif.Props.PureSamlsp"],
+    "modules": ["SamlVerif.Props.C16", "SamlVerif.Props.TransSession", "SamlVerif.Props.PureSamlsp"],
     "trusted_base": ["modelled, not verified: golang-jwt parsing and validation order (re-implemented as `parse`; tied by structure-aware token mutation), JSON encoding of claims, net/http cookie handling",
                      "signatures are symbolic (Mac): a signature verifies under (alg, key) iff it was made with that alg and key over these bytes"],
     "assumptions": ["whole-second comparison of exp/nbf/iat as golang-jwt does for StandardClaims"],
@@ -157,7 +157,7 @@ PROPS["C17"] = {
 }
 
 PROPS["C19"] = {
-    "modules": ["SamlVerif.Props.C19", "SamlVerif.Props.PureSamlidp"],
+    "modules": ["SamlVerif.Props.C19", "SamlVerif.Props.TransSession", "SamlVerif.Props.PureSamlidp"],
     "trusted_base": ["modelled, not verified: bcrypt (symbolic: compare(H p, p') iff p = p'), JSON encoding of stored values, http.ServeMux routing, the MemoryStore (covered by C20)",
                      "'exactly one HTTP reply' is by construction in the model and measured on the real server by a counting ResponseWriter (testing)"],
     "assumptions": ["stored services have pairwise distinct entity IDs (with duplicates the registry a restart builds depends on Go map iteration order)",
@@ -271,6 +271,8 @@ for pid, fns in {"C01": "parseResponse / parseAssertion / parseEncryptedAssertio
                  "C18": "validateLogoutResponse / the trust configuration of validateSignature",
                  "C08": "IdpAuthnRequest.getSPEncryptionCert (the selection of the certificate string, up to its decoding)",
                  "C10": "xmlenc appendPadding / stripPadding", "C11": "xmlenc stripPadding",
+                 "C16": "samlsp CookieSessionProvider.GetSession",
+                 "C19": "samlidp Server.GetSession (the branch for requests without credentials)",
                  "C17": "samlsp Middleware.ServeACS / CreateSessionFromAssertion (as effect traces) / CookieRequestTracker.GetTrackedRequest"}.items():
     PROPS[pid]["technique"] = TRANS_TECH.format(fns=fns)
     PROPS[pid]["trusted_base"] = list(PROPS[pid].get("trusted_base", [])) + [TRANS_TB]
